@@ -270,3 +270,21 @@ func (c cmdJ) coq() string {
 		return vh.App("HOpaque", vh.N(opaqueIndex(c.K)))
 	}
 }
+
+// coqChan renders what the monitor's K6 signature needs of a channel-row / subscriber command.
+func (c cmdJ) coqChan() string {
+	kind := uint64(0)
+	switch c.K {
+	case "delete_channel":
+		kind = 1
+	case "add_subs":
+		kind = 2
+	case "remove_subs":
+		kind = 3
+	case "create_channel", "upsert_channel", "patch_flags":
+		kind = 4
+	default:
+		return "None"
+	}
+	return vh.Some(vh.App("ChanOp", vh.N(kind), hexS(c.ID), vh.Z(c.Ty), vh.ListOf(c.UIDs, hexS)))
+}
